@@ -190,11 +190,17 @@ pub struct ChildStderr {
 /// (deterministic). If the compiler has started threads of its own, one of them may still unblock this one: the
 /// kernel lock is released between attempts and the deadlock is only declared after the other threads had two
 /// seconds of real time without any change in the simulated world.
-fn blocking<R>(mut attempt: impl FnMut(&mut Kernel, bool) -> Attempt<R>) -> Option<R> {
+fn blocking<R>(subject: usize, op: u8, mut attempt: impl FnMut(&mut Kernel, bool) -> Attempt<R>) -> Option<R> {
     let mut first = true;
     let mut last_progress: Option<u64> = None;
     let mut waited_us: u64 = 0;
     let threads = crate::raw::thread_count();
+    if threads > 1 {
+        // seeded delay (see Kernel::jitter_us); never for the single-threaded compiler
+        if let Some(us) = kernel::with(|k| k.jitter_us(subject, op)) {
+            ::std::thread::sleep(::std::time::Duration::from_micros(us));
+        }
+    }
     loop {
         let a = kernel::with(|k| {
             k.max_threads = k.max_threads.max(threads);
@@ -234,7 +240,7 @@ fn seam_gone() -> io::Error {
 
 impl Write for ChildStdin {
     fn write(&mut self, buf: &[u8]) -> io::Result<usize> {
-        match blocking(|k, first| k.stdin_write(self.gen, self.pipe, buf, first)) {
+        match blocking(self.gen, 0, |k, first| k.stdin_write(self.gen, self.pipe, buf, first)) {
             None => Err(seam_gone()),
             Some(Ok(n)) => Ok(n),
             Some(Err(errno)) => Err(io::Error::from_raw_os_error(errno)),
@@ -247,7 +253,7 @@ impl Write for ChildStdin {
 
 impl Write for &ChildStdin {
     fn write(&mut self, buf: &[u8]) -> io::Result<usize> {
-        match blocking(|k, first| k.stdin_write(self.gen, self.pipe, buf, first)) {
+        match blocking(self.gen, 0, |k, first| k.stdin_write(self.gen, self.pipe, buf, first)) {
             None => Err(seam_gone()),
             Some(Ok(n)) => Ok(n),
             Some(Err(errno)) => Err(io::Error::from_raw_os_error(errno)),
@@ -266,7 +272,7 @@ impl Drop for ChildStdin {
 
 impl Read for ChildStdout {
     fn read(&mut self, buf: &mut [u8]) -> io::Result<usize> {
-        match blocking(|k, first| k.pipe_read(self.gen, 1, self.pipe, buf, first)) {
+        match blocking(self.gen, 1, |k, first| k.pipe_read(self.gen, 1, self.pipe, buf, first)) {
             None => Err(seam_gone()),
             Some(Ok(n)) => Ok(n),
             Some(Err(errno)) => Err(io::Error::from_raw_os_error(errno)),
@@ -282,7 +288,7 @@ impl Drop for ChildStdout {
 
 impl Read for ChildStderr {
     fn read(&mut self, buf: &mut [u8]) -> io::Result<usize> {
-        match blocking(|k, first| k.pipe_read(self.gen, 2, self.pipe, buf, first)) {
+        match blocking(self.gen, 2, |k, first| k.pipe_read(self.gen, 2, self.pipe, buf, first)) {
             None => Err(seam_gone()),
             Some(Ok(n)) => Ok(n),
             Some(Err(errno)) => Err(io::Error::from_raw_os_error(errno)),
@@ -321,7 +327,7 @@ impl Child {
     pub fn wait(&mut self) -> io::Result<ExitStatus> {
         // like std: the child's stdin is closed first so that a child waiting for input can finish
         drop(self.stdin.take());
-        match blocking(|k, first| k.wait(self.handle, first)) {
+        match blocking(self.handle, 3, |k, first| k.wait(self.handle, first)) {
             None => Err(seam_gone()),
             Some(Ok(raw)) => Ok(ExitStatus::from_raw(raw)),
             Some(Err(e)) => Err(io::Error::from_raw_os_error(e)),
@@ -341,7 +347,7 @@ impl Child {
         let out = self.stdout.take();
         let err = self.stderr.take();
         let (op, ep) = (out.as_ref().map(|o| o.pipe), err.as_ref().map(|e| e.pipe));
-        let r = blocking(|k, first| k.wait_with_output(self.handle, op, ep, first));
+        let r = blocking(self.handle, 4, |k, first| k.wait_with_output(self.handle, op, ep, first));
         // the read ends are closed by the kernel; do not close them a second time
         ::std::mem::forget(out);
         ::std::mem::forget(err);
